@@ -49,8 +49,33 @@ def r13_1(prog, rep):
     f = prog.fn("prep_task", "echsx.c")
     cfg = f.cfg
     t = f.params[0]["n"]
-    tmpl = symbol_id("tmpl")
-    nulfn = symbol_id("nulfn")
+    # the roles of the locals are read off their uses, not their names: the template is what mkstemp() is handed, the null device is
+    # the static string "/dev/null", the result is what is returned
+    tmpl_n = nul_n = rc_n = None
+    for b_, i_, x_, l_ in cfg.all_elems():
+        if not isinstance(x_, dict):
+            continue
+        for c_ in calls(x_):
+            if c_.get("fn") == "mkstemp" and c_.get("a"):
+                a_ = strip_casts(cfg.resolve(c_["a"][0]))
+                if a_.get("k") == "ref":
+                    tmpl_n = a_["n"]
+        if x_.get("k") == "ret" and x_.get("e") is not None:
+            e_ = strip_casts(cfg.resolve(x_["e"]))
+            if e_.get("k") == "ref":
+                rc_n = e_["n"]
+    for tn, ts in prog.tables.items():
+        for t_ in ts:
+            if t_.get("file") == "echsx.c" and t_.get("str") == "/dev/null":
+                nul_n = tn
+    if nul_n is None:
+        for l_ in f.locals:
+            if l_.get("static") and "char" in (l_.get("t") or "") and l_["n"] != tmpl_n:
+                nul_n = nul_n or l_["n"]
+    if tmpl_n is None or nul_n is None:
+        raise AnalysisBroken("prep_task: mail template / null device name not found (%s, %s)" % (tmpl_n, nul_n))
+    tmpl = symbol_id(tmpl_n)
+    nulfn = symbol_id(nul_n)
     confs = _configs()
     if len(confs) != 20:
         raise AnalysisBroken("expected 20 configurations, enumerated %d" % len(confs))
@@ -96,7 +121,7 @@ def r13_1(prog, rep):
                     upd["$aborted"] = 1
             return upd
         tracked = set(init) | {"%s->%s" % (t, fl) for fl in ("ifd", "ofd", "efd", "mfd", "opip", "epip", "teeo", "teee", "mfn", "mrm")} | \
-            {"nulfd", "nulfd_used", "rc", "fd", "fl", "opip[0]", "opip[1]", "epip[0]", "epip[1]"}
+            {l_["n"] for l_ in f.locals if l_.get("w") and not l_.get("static")} | {"opip[0]", "opip[1]", "epip[0]", "epip[1]"}
         w = AbsWalk(f, tracked, init=init, effect=effect, call_eval=call_eval)
         w.run()
         finals = [s for s in w.exit_stores if not s.get("$aborted")]
@@ -111,8 +136,8 @@ def r13_1(prog, rep):
             continue
         s = finals[0]
         g = lambda fld: s.get("%s->%s" % (t, fld))
-        if s.get("rc") not in (0, None):
-            rep.fail(rid, key, f.loc(), "prep_task fails (rc=%s) although every descriptor source succeeds" % s.get("rc"))
+        if rc_n and s.get(rc_n) not in (0, None):
+            rep.fail(rid, key, f.loc(), "prep_task fails (%s=%s) although every descriptor source succeeds" % (rc_n, s.get(rc_n)))
             continue
         ofd, efd, mfd, teeo, teee, opip, epip, mfn, mrm = (g("ofd"), g("efd"), g("mfd"), g("teeo"), g("teee"), g("opip"), g("epip"), g("mfn"), g("mrm"))
         if None in (ofd, efd):
@@ -297,13 +322,14 @@ def r13_2(prog, rep):
     p = prog.fn("prep_task", "echsx.c")
     cd = call_sites(p, "chdir")
     opens = [S for S in call_sites(p, "open") if (const_eval(p, S.node["a"][1]) or 0) & 0o100]
-    if cd and opens and all(site_before(p.cfg, cd[0], o) or not p.cfg.paths_avoiding(p.cfg.entry, o.b, {cd[0].b}) or True for o in opens) and \
-            lv(p.cfg.resolve(cd[0].node["a"][0])).endswith("run_as.wd"):
-        first_open = min(o.line for o in opens)
-        if cd[0].line < first_open:
-            rep.ok(rid, "prep_task/chdir-first", p.loc(cd[0].line), "chdir(run_as.wd) precedes the creation of output files")
+    if cd and opens and lv(p.cfg.resolve(cd[0].node["a"][0])).endswith("run_as.wd"):
+        # on no path does the creation of an output file precede the chdir: the chdir is not reachable from any creating open
+        early = [o for o in opens if (o.b == cd[0].b and o.i < cd[0].i) or (o.b != cd[0].b and cd[0].b in p.cfg.reach_from(o.b))]
+        if not early:
+            rep.ok(rid, "prep_task/chdir-first", p.loc(cd[0].line), "chdir(run_as.wd) precedes the creation of output files on every path")
         else:
-            rep.fail(rid, "prep_task/chdir-first", p.loc(cd[0].line), "output files are created before the working directory is entered")
+            rep.fail(rid, "prep_task/chdir-first", p.loc(early[0].line), "an output file is created on a path that enters the working directory only afterwards "
+                     "(relative OFILE/EFILE names end up in the daemon's directory)")
     else:
         rep.fail(rid, "prep_task/chdir-first", p.loc(), "prep_task does not chdir to the requested directory")
 
